@@ -7,7 +7,7 @@ ID=$1; N=$2; shift 2
 SEEDCOPY=${SEEDCOPY:-/var/tmp/verif-seed}
 D=/tmp/mut-$ID
 if [ "$N" = 1 ]; then P=$D/patch.diff; DEMO=demo.c; else P=$D/patch$N.diff; DEMO=demo$N.c; fi
-[ -f $D/$DEMO ] || DEMO=$(ls $D | grep "^demo$N\|^demo\." | head -1)
+if [ ! -f $D/$DEMO ]; then if [ "$N" = 1 ]; then DEMO=$(ls $D | grep "^demo\." | head -1); else DEMO=$(ls $D | grep "^demo$N\." | head -1); fi; fi
 WT=/tmp/wts-$ID-$N
 OUT=/verif/notes/seedresults/$ID-$N.txt; mkdir -p /verif/notes/seedresults; : > $OUT
 git -C /repo worktree remove --force $WT >/dev/null 2>&1
